@@ -54,13 +54,71 @@ def humans_on_join(human_bells, user_name=None, wheatley_bells=None, namesake=Fa
     return msgs
 
 
+_SERVER_DEFAULTS = []
+
+
+def _server_defaults():
+    if not _SERVER_DEFAULTS:
+        from harness import genprobe
+        try:
+            _SERVER_DEFAULTS.append(genprobe.server_defaults())
+        except Exception:  # noqa
+            _SERVER_DEFAULTS.append(None)
+    return _SERVER_DEFAULTS[0]
+
+
+def server_rhythm_cfg(peal_speed):
+    """The rhythm of a server-mode Wheatley in the default waiting mode: the constants `server_main` is found to
+    hand on (inertia, gap, memory) - except the waiting itself, which server mode has no switch for."""
+    d = _server_defaults() or {"inertia": 1, "handstroke_gap": 1, "max_bells_in_dataset": 15, "initial_inertia": 0}
+    return rhythm_cfg("wait", inertia=float(d["inertia"]), peal_speed=peal_speed, gap=float(d["handstroke_gap"]),
+                      max_bells=int(d["max_bells_in_dataset"]), initial_inertia=float(d["initial_inertia"]))
+
+
+def server_argv_for(sc):
+    """Server mode has no options but the room, the port and the instance id (and the time of the Look To that
+    spawned it): a server-mode scenario whose configuration is exactly what `server_main` builds - measured on the
+    running code - can go through the real `main(["server-mode", ...])`."""
+    d = _server_defaults()
+    bot, rh = sc["bot"], sc["rhythm"]
+    if d is None or bot["gen"].get("type") != "placeholder" or rh.get("kind") not in ("wait", "regression"):
+        return None
+    num = lambda x: float(x[0]) / float(x[1]) if isinstance(x, (list, tuple)) else float(x)      # noqa: E731
+    same = (bot.get("user_name") == d["user_name"]
+            # (server mode has no switch for waiting: for C09 - "the default waiting mode" - it waits, whatever
+            # `server_main` is found to hand on)
+            and ((rh["kind"] == "wait") == bool(d["use_wait"]) or (sc.get("server_mode_waits") and rh["kind"] == "wait"))
+            and b2f(rh["inertia"]) == num(d["inertia"]) and b2f(rh["gap"]) == num(d["handstroke_gap"])
+            and rh["max_bells"] == d["max_bells_in_dataset"]
+            and b2f(rh.get("initial_inertia", f2b(0.0))) == num(d["initial_inertia"]))
+    if not same:
+        return None
+    argv = ["server-mode", str(sc.get("tower_id", 763451928)), "--port", "5000", "--id", str(bot["server_id"])]
+    if sc.get("look_to_time") is not None:
+        argv += ["--look-to-time", repr(b2f(sc["look_to_time"]))]
+    # the Bot's three switches are what Ringing Room sets with the answers to the join
+    kvs = [[key, bot.get(field, True)] for key, field, dk in (("use_up_down_in", "up_down_in", "use_up_down_in"),
+                                                              ("stop_at_rounds", "stop_at_rounds", "stop_at_rounds"),
+                                                              ("call_composition", "call_comps", "call_comps"))
+           if bot.get(field, True) != d[dk]]
+    if rh["peal_speed"] != d["peal_speed"]:
+        kvs.append(["peal_speed", rh["peal_speed"]])       # (and the band's speed)
+    if kvs:
+        if sc.get("look_to_time") is not None or sc.get("sync_join"):
+            return None
+        return argv + ["<settings>", kvs]
+    return argv
+
+
 def argv_for(sc):
     """The command line that stands for this scenario's configuration, when there is one (console mode): the
     session can then be run through the real `wheatley.main.main(argv)` instead of building the objects by hand,
     which puts the wiring of every option under the same oracles.  None when the configuration cannot be
     expressed on the command line."""
     bot, rh = sc.get("bot"), sc.get("rhythm")
-    if not bot or not rh or bot.get("server_id") is not None or sc.get("look_to_time") is not None:
+    if bot and rh and bot.get("server_id") is not None:
+        return server_argv_for(sc)
+    if not bot or not rh or sc.get("look_to_time") is not None:
         return None
     if rh.get("kind") not in ("wait", "regression") or b2f(rh.get("initial_inertia", f2b(0.0))) != 0.0:
         return None
@@ -171,6 +229,12 @@ class WorldProp(Prop):
             req["log_level"] = level
         if argv is not None and "argv" not in sc:
             if (h % 1000) / 1000.0 < self.via_main_share or sc.get("prefer_main"):
+                if "<settings>" in argv:
+                    # (a server-mode session whose switches differ from server_main's: Ringing Room sets them at
+                    # the join)
+                    kvs = argv[argv.index("<settings>") + 1]
+                    argv = argv[:argv.index("<settings>")]
+                    sc = dict(sc, on_join=list(sc.get("on_join") or []) + [{"m": "setting", "kvs": kvs}])
                 if level:
                     argv = argv + {"DEBUG": [["-v"], ["--verbose"], ["-v", "-v"]][h % 3], "INFO": [],
                                    "WARNING": [["-q"], ["--quiet"]][h % 2]}[level]
